@@ -385,3 +385,38 @@ func VerifC01_formatter() {
 	vfAssert(c.Empty() == (s == ""), "empty-iff-text-empty")
 	vfObserveStr("text", c.String())
 }
+
+// named string types: with a text method the method's result is the text (Stringer, error, GoStringer
+// in the documented precedence), without one the string value itself.
+type vfNamedPlain string
+type vfNamedStr string
+
+func (x vfNamedStr) String() string { return "S:" + string(x) }
+
+type vfNamedErr string
+
+func (x vfNamedErr) Error() string { return "" }
+
+type vfNamedGo string
+
+func (x vfNamedGo) GoString() string { return "G:" + string(x) }
+
+func VerifC01_namedstrings() {
+	s := vfString("s", 2, vfASCII)
+	var item interface{}
+	want := ""
+	switch vfChoice("kind", 4) {
+	case 0:
+		item, want = vfNamedPlain(s), s
+	case 1:
+		item, want = vfNamedStr(s), "S:"+s
+	case 2:
+		item, want = vfNamedErr(s), ""
+	case 3:
+		item, want = vfNamedGo(s), "G:"+s
+	}
+	c := NewCell(item)
+	vfAssert(c.String() == want, "text")
+	vfAssert(c.Empty() == (want == ""), "empty-iff-text-empty")
+	vfObserveStr("text", c.String())
+}
